@@ -2,7 +2,6 @@ package vuego
 
 import (
 	"fmt"
-	"html"
 	"io"
 	"strings"
 	"sync"
@@ -99,16 +98,10 @@ func (v *Vue) interpolateToWriter(ctx VueContext, w io.Writer, input string) err
 					return err
 				}
 			} else {
-				// Skip escaping if the string doesn't contain special characters
-				// (avoids allocation in html.EscapeString for most cases)
-				if !helpers.NeedsHTMLEscape(valStr) {
-					if _, err := io.WriteString(w, valStr); err != nil {
-						return err
-					}
-				} else {
-					if _, err := io.WriteString(w, html.EscapeString(valStr)); err != nil {
-						return err
-					}
+				// The value is stored as plain text; the serialiser escapes text
+				// nodes and attribute values exactly once on output.
+				if _, err := io.WriteString(w, valStr); err != nil {
+					return err
 				}
 			}
 		}
